@@ -701,4 +701,17 @@ def sh_range(*a):
     return _b.range(*a)
 
 
-BUILTIN_SHADOWS = {"len": sh_len, "float": sh_float, "int": sh_int, "sum": sh_sum, "range": sh_range}
+def sh_enumerate(x, start=0):
+    if isinstance(x, SArr):
+        use("loop:generic-index")
+        if len(x.axes) != 1 or x.sel is not None or x.mask is not None:
+            raise Unsupported("enumerate() of a filtered / masked / multi-dimensional symbolic array")
+
+        def gen():
+            for k in GenericRange(0, x.axes[0].size):
+                yield (k if start == 0 else k + start), x[k]
+        return gen()
+    return _b.enumerate(x, start)
+
+
+BUILTIN_SHADOWS = {"len": sh_len, "float": sh_float, "int": sh_int, "sum": sh_sum, "range": sh_range, "enumerate": sh_enumerate}
